@@ -123,6 +123,26 @@ def fdSide (p : TP F) (x h : F) : Int :=
 def quot2 (side : Int) (am a0 ap h : F) : F :=
   if side == 1 then (ap - a0) / h else if side == -1 then (a0 - am) / h else (ap - am) / (2.0 * h)
 
+/-- strictly inside the open interval: what `*_back_in_domain` prove over the reals.  In double the
+back-transformed value can sit *on* a bound (tanh / exp saturate, or the forward map of a value within
+an ulp-fraction of a bound is infinite): judged, clause `back_in_open_domain_float` -/
+def inOpenDomain (p : TP F) (orig : F) : Bool :=
+  match domain p with
+  | (a, b) =>
+    (match a with | some a => a < orig | none => true) &&
+    (match b with | some b => orig < b | none => true)
+
+/-- `strict_mono` over the reals, judged strictly on the implementation's two values for `x1 < x2`
+(`o1`, `o2` already multiplied by the orientation).  Decreasing is a violation.  Equal values: a
+violation when the real increment (smallest slope `d` times the distance) is resolvable in double at
+the magnitude `mag` of the data; otherwise the map is flat *in double* (tanh saturates beyond
+|x/scale| ~ 19, although coordinates up to 30 are in the quantifier): clause `strict_mono_float_flat` -/
+def monoVerdict (o1 o2 d dx mag : F) : String :=
+  if o1 < o2 then "ok"
+  else if o2 < o1 then "FAIL:strict_mono"
+  else if d * dx > 8.0 * eps * mag then "FAIL:strict_mono"
+  else "FAIL:strict_mono_float_flat"
+
 /-- `mag`: magnitude of the data entering `g` (bounds, values): the rounding error of `g` is a few
 ulps of it (cancellation in `tanh + 1` is amplified by the width of the interval) -/
 def fdOk (gm g0 gp am a0 ap bm b0 bp h s mag : F) (side : Int) : String :=
@@ -272,6 +292,12 @@ def newWVerdict (impl : Option (List String)) (ps all : List (Shape F × F)) (ag
   -- `ps`: the parameters the wrapper reparametrises (`functionParameters_`), in its order; `all`: the
   -- function's own parameters; `agree`: the list given to the second constructor carried the
   -- function's own values (hypothesis of `newSub_refines_init`)
+  -- whatever the interval (also one narrower than 2-3 TINY, outside `Roomy`): a wrapper that is built
+  -- has no NaN coordinate (`mkIT`: `init_` raises instead)
+  let nanCoord := match impl with
+    | some t => (match splitSemi t with | xs :: _ => xs.any (· == "nan") | _ => false)
+    | none => false
+  if nanCoord && ps.all (fun (_, v) => !v.isNaN) then "FAIL:narrow_interval_nan" else
   if !(ps.all (fun (shp, _) => quantOk shp)) || !agree then "-" else
   match impl with
   | none => "-"
@@ -389,12 +415,18 @@ def wfdxOk (c : Ctx) (w0 : W F) (i j : Nat) (h : F) (vals : List F) : String :=
 
 /-! ### objects: functions, wrappers, registers -/
 
+/-- encoding of `i!` in the parsed selection: index + `noConsOffset` -/
+def noConsOffset : Nat := 1000
+
 /-- `sel` of `w.newsub` / `w.mk`: comma separated items, each a function index `i` (a copy of the
 function's own parameter), `i@<hex>` (the same with another value) or `f` (a foreign parameter, which
 the constructor ignores, h:48-50); `none` when an index is out of range or repeated -/
 def parseSel (n : Nat) (s : String) : Option (List (Option (Nat × Option F))) :=
   let items := (s.splitOn ",").map (fun tok =>
     if tok == "f" then some none
+    else if tok.endsWith "!" then
+      -- `i!`: the given parameter has the function's value but *no constraint* (`Parameter(name, value)`)
+      (nat? (tok.dropEnd 1).toString).map (fun i => some (i + noConsOffset, none))
     else match tok.splitOn "@" with
       | [i] => (nat? i).map (fun i => some (i, none))
       | [i, v] => match nat? i, fl? v with
@@ -404,7 +436,7 @@ def parseSel (n : Nat) (s : String) : Option (List (Option (Nat × Option F))) :
   match items.mapM id with
   | none => none
   | some l =>
-    let idx := l.filterMap (fun o => o.map (·.1))
+    let idx := l.filterMap (fun o => o.map (fun q => q.1 % noConsOffset))
     if idx.all (· < n) && idx.eraseDups.length == idx.length then some l else none
 
 /-- the name of the foreign parameter `zz` -/
@@ -432,6 +464,20 @@ function stand where they are -/
 def ctxOf (f : Fn F) (w : Wr F) (cs : List (Coef F)) : Ctx := { cs := cs, sel := w.names, base := f.vals }
 
 def wfOf (w : Wr F) : Bool := w.fps.all (fun p => quantOk p.shape)
+
+def isNoneShape : Shape F → Bool
+  | .none => true
+  | _ => false
+
+/-- the clause reported when an update through a wrapper raises a ConstraintException: over the reals
+it never does for a wrapper whose `functionParameters_` carry the function's constraints
+(`set_never_raises`).  A wrapper built by the second constructor from a list *without constraints*
+(hypothesis `Agrees` of `newSub_refines_init` fails) took the placebo transform and forwards
+unconstrained values to the constrained function: judged, clause `constraintless_list_raises`. -/
+def raiseClause (f : Fn F) (w : Wr F) : String :=
+  if w.fps.any (fun fp => match findP fp.name f.ps with
+      | some q => isNoneShape fp.shape && !(isNoneShape q.shape)
+      | none => false) then "FAIL:constraintless_list_raises" else "FAIL:set_never_raises"
 
 def setWorld (s : St) (wi : Nat) (f' : Fn F) (w' : Wr F) : St :=
   { s with world := { fns := s.world.fns.set w'.fn f', ws := s.world.ws.set wi w' } }
@@ -486,10 +532,15 @@ def doMk (s : St) (impl : Option (List String)) (k g cls : Nat) (sel : Option (L
       let given : Option (List (FParam F)) := sel.map (fun l => l.filterMap (fun o =>
         match o with
         | none => some { name := foreignName, shape := Shape.none, value := 1.0 }
-        | some (i, ov) => (f.ps[i]?).map (fun p => { p with value := ov.getD p.value })))
+        | some (i, ov) =>
+          if i ≥ noConsOffset then (f.ps[i - noConsOffset]?).map (fun p => { p with shape := Shape.none })
+          else (f.ps[i]?).map (fun p => { p with value := ov.getD p.value })))
       -- `Parameter(name, value, constraint)` of an overridden value raises on an incorrect value
       if (given.getD []).any (fun p => !(p.shape.isCorrect p.value)) then (dropAll s, "exc:constraint", "-") else
-      let agree := (sel.getD []).all (fun o => match o with | some (_, some _) => false | _ => true)
+      let agree := (sel.getD []).all (fun o => match o with
+        | some (_, some _) => false
+        | some (i, none) => i < noConsOffset
+        | _ => true)
       let r := match given with
         | none => Wr.newFull pi tiny fi f
         | some gl => Wr.newSub pi tiny fi f gl
@@ -505,7 +556,11 @@ def doMk (s : St) (impl : Option (List String)) (k g cls : Nat) (sel : Option (L
         let ok := match given with
           | none => f.ps.all (fun p => quantOk p.shape)
           | some gl => (common f gl).all (fun p => quantOk p.shape) && agree
-        (dropAll s, excStr e, match impl with | some _ => if ok then "FAIL:wrap_preserves_values" else "-" | none => "-")
+        (dropAll s, excStr e, match impl with
+          | some t => if ok then "FAIL:wrap_preserves_values"
+                      else if t.head? == some (excStr e) then "ok"   -- too narrow an interval: both raise
+                      else if t.head? == some "nan" then "FAIL:narrow_interval_nan" else "-"
+          | none => "-")
   | _ => (s, "bad-op", "-")
 
 /-- a new function object in register `g`; `exc:constraint` when the function's own
@@ -534,7 +589,7 @@ def doSet (s : St) (impl : Option (List String)) (k : Nat) (pl : List (Nat × F)
       (setWorld s wi f' w', out, verdict)
     | .error e =>
       -- `set_never_raises`: over the reals a well-formed wrapper never raises on its own names
-      (dropAll s, excStr e, match impl with | some _ => if named && wf then "FAIL:set_never_raises" else "-" | none => "-")
+      (dropAll s, excStr e, match impl with | some _ => if named && wf then raiseClause f w else "-" | none => "-")
 
 /-- verdict of an inherited setter (`inherited_setters_stay_private`): the function does not move, the
 wrapper's private copy of every refreshed coordinate is the back-transformed value -/
@@ -640,6 +695,8 @@ def step (s : St) (op : List String) (impl : Option (List String)) : St × Strin
                 if !inScope p then "-"
                 else if !(roundTripOk p v o) then "FAIL:roundtrip"
                 else if !(inDomain p o) then "FAIL:back_in_domain"
+                -- the transformed coordinate is judged too: it is finite and maps back strictly inside
+                else if !(inOpenDomain p o) || !(finite p'.x) then "FAIL:back_in_open_domain_float"
                 else "ok"
               | none => "FAIL:parse"
             | some ["exc:constraint"] => "FAIL:constraint_check"
@@ -661,7 +718,8 @@ def step (s : St) (op : List String) (impl : Option (List String)) : St × Strin
             | some o, some a =>
               if !inScope p || !(finite x) then "-"
               else if !(inDomain p o) then "FAIL:back_in_domain"
-              else if !(orientation p * a ≥ 0.0) then "FAIL:strict_mono"
+              else if !(orientation p * a > 0.0) then "FAIL:strict_mono"
+              else if !(inOpenDomain p o) then "FAIL:back_in_open_domain_float"
               else "ok"
             | _, _ => "FAIL:parse"
           | some _ => "FAIL:parse"
@@ -682,10 +740,16 @@ def step (s : St) (op : List String) (impl : Option (List String)) : St × Strin
             match fl? o1, fl? o2 with
             | some o1, some o2 =>
               if !inScope p || !(finite x1 && finite x2) then "-"
-              else if x1 < x2 && !(orientation p * (o2 - o1) ≥ 0.0) then "FAIL:strict_mono"
-              else if x2 < x1 && !(orientation p * (o1 - o2) ≥ 0.0) then "FAIL:strict_mono"
               else if !(inDomain p o1 && inDomain p o2) then "FAIL:back_in_domain"
-              else "ok"
+              else if x1 == x2 then "-"
+              else
+                let d := if fabs (p1.d1 pi) < fabs (p2.d1 pi) then fabs (p1.d1 pi) else fabs (p2.d1 pi)
+                let mag := fmax (magnitude p o1) (magnitude p o2)
+                let mv := if x1 < x2 then monoVerdict (orientation p * o1) (orientation p * o2) d (x2 - x1) mag
+                          else monoVerdict (orientation p * o2) (orientation p * o1) d (x1 - x2) mag
+                if mv != "ok" then mv
+                else if !(inOpenDomain p o1 && inOpenDomain p o2) then "FAIL:back_in_open_domain_float"
+                else "ok"
             | _, _ => "FAIL:parse"
           | some _ => "FAIL:parse"
           | none => "-"
@@ -850,7 +914,7 @@ def step (s : St) (op : List String) (impl : Option (List String)) : St × Strin
       match findTP i w.params, findTP j w.params with
       | some _, some tj =>
         match probe3 f w j tj.x h with
-        | .error e => (dropAll s, excStr e, match impl with | some _ => if wfOf w then "FAIL:set_never_raises" else "-" | none => "-")
+        | .error e => (dropAll s, excStr e, match impl with | some _ => if wfOf w then raiseClause f w else "-" | none => "-")
         | .ok ((fm, wm), (fp, wp), (f0, w0)) =>
           let vals := [oD1 cs fm wm i, oD1 cs fp wp i, oD2x cs f0 w0 i j]
           let verdict := match impl with
@@ -955,7 +1019,7 @@ def step (s : St) (op : List String) (impl : Option (List String)) : St × Strin
         | none => (dropAll s, "exc:notfound", "-")
         | some tp0 =>
           match probe3 f w n tp0.x h with
-          | .error e => (dropAll s, excStr e, match impl with | some _ => if wfOf w then "FAIL:set_never_raises" else "-" | none => "-")
+          | .error e => (dropAll s, excStr e, match impl with | some _ => if wfOf w then raiseClause f w else "-" | none => "-")
           | .ok ((fm, wm), (fp, wp), (f0, w0)) =>
             let b0 := if second then oD2 cs f0 w0 n else 0.0
             let vals := [Poly.f cs fm.vals, Poly.f cs f0.vals, Poly.f cs fp.vals,
